@@ -131,8 +131,8 @@ impl Options {
     /// If too low, `Acknowledge`s will consume too much bandwidth;
     /// If too high, writers may block.
     ///
-    /// Note that if the peer indicates a lower `rwnd` value in the handshake,
-    /// this value will be ignored for that connection.
+    /// Note that this value is capped at our own `rwnd`: acknowledging less often
+    /// than once per window would starve the peer of credit.
     ///
     /// # Panics
     /// Panics if the value is not positive.
